@@ -530,6 +530,15 @@ func (c *LinCtx) linCompute(v ssa.Value, nn nonNegProver) Lin {
 				return c.LenLin(x.Call.Args[0])
 			case "cap":
 				return atomLin(c.atom(x.Call.Args[0], akCap))
+			case "copy":
+				// copy returns min(len(dst), len(src)); exact when both lengths are constants
+				ld, ls := c.LenLin(x.Call.Args[0]), c.LenLin(x.Call.Args[1])
+				if ld.isConst() && ls.isConst() {
+					if ld.c < ls.c {
+						return constLin(ld.c)
+					}
+					return constLin(ls.c)
+				}
 			}
 		}
 		return self()
@@ -809,6 +818,12 @@ func (c *LinCtx) Intrinsic(ls []Lin, nn nonNegProver) []Lin {
 					emit(l)
 				}
 			}
+			if isBuiltin(&x.Call, "copy") {
+				// 0 ≤ copy(dst, src) ≤ len(dst), len(src)
+				emit(al.scale(-1))
+				emit(al.add(c.LenLin(x.Call.Args[0]), -1))
+				emit(al.add(c.LenLin(x.Call.Args[1]), -1))
+			}
 		case *ssa.BinOp:
 			switch x.Op {
 			case token.QUO, token.SHR:
@@ -864,6 +879,26 @@ func (c *LinCtx) Intrinsic(ls []Lin, nn nonNegProver) []Lin {
 								emit(e.scale(-1))
 							}
 						}
+					}
+				}
+			case token.MUL:
+				// y·c on a w-bit unsigned type is (c·y) mod 2^w, which never exceeds c·y; for c = 2^k it is the shift below
+				if isUnsignedT(x.Type()) {
+					for _, pr := range [][2]ssa.Value{{x.X, x.Y}, {x.Y, x.X}} {
+						ci, ok := constInt(pr[1])
+						if !ok || ci <= 0 || ci >= (1<<30) {
+							continue
+						}
+						if ci&(ci-1) == 0 && ci > 1 {
+							m := atomLin(c.atom(v, akShlQ))
+							e := al.add(m, -ci) // v = 2^k·m
+							emit(e)
+							emit(e.scale(-1))
+							emit(m.add(c.linP(pr[0], nn), -1)) // m ≤ y
+						} else {
+							emit(al.add(c.linP(pr[0], nn).scale(ci), -1)) // v ≤ c·y
+						}
+						break
 					}
 				}
 			case token.SHL:
